@@ -85,6 +85,8 @@ TENSOR = [
     ("binary", dict(alpha="auto", scale_axis=[0, 1], elements_per_scale=[2, 1]), (4, 2)),
     ("binary", dict(alpha="auto_po2"), (2, 2)), ("binary", dict(alpha="auto_po2", min_po2_exponent=-1, max_po2_exponent=1), (2, 2)),
     ("binary", dict(alpha="auto_po2", scale_axis=0), (2, 2)),
+    # one-sided exponent bounds (a single configured bound is a bound)
+    ("binary", dict(alpha="auto_po2", max_po2_exponent=1), (2, 1)), ("binary", dict(alpha="auto_po2", min_po2_exponent=0), (2, 1)),
     ("ternary", dict(alpha="auto"), (4,)), ("ternary", dict(alpha="auto"), (2, 2)), ("ternary", dict(alpha="auto"), (2, 2, 2)), ("ternary", dict(alpha="auto_po2"), (2, 2)),
     ("ternary", dict(alpha="auto", number_of_unrolls=2), (3, 2)),
 ]
